@@ -33,7 +33,7 @@ COMPONENTS = {
 ASSUMPTIONS = ["the reference interpreter assembles every probe program with a fresh Assembler; it is long-lived per "
                "worker, so process-global residue is detected by difference of histories, not by absolute freshness"]
 PROBES = ["aborted_parse", "aborted_pass1", "aborted_pass2", "object_reused", "forward_ref", "backward_ref", "cross_page_rejected",
-          "sections", "org", "bss", "label_on_directive"]
+          "sections", "org", "bss", "label_on_directive", "org_by_label"]
 
 NOSYM = ["NOP", "RET", "RETF", "SC", "RC", "HALT", "SWAP A", "MV A, 0x{b}", "MV BA, 0x{w}", "MV X, 0x{l}", "MV Y, 0x{l}",
          "ADD A, 0x{b}", "SUB A, 0x{b}", "AND A, 0x{b}", "OR A, 0x{b}", "XOR A, 0x{b}", "CMP A, 0x{b}", "PUSHU A", "POPU A",
@@ -194,6 +194,17 @@ def _gen_program(r: Rng, good: bool, small_ok: bool = True) -> Dict[str, Any]:
         stmts.append({"text": "NOP", "kind": "ins", "label": "L6"})
         stmts.append({"text": f".ORG 0x{page + rp.choice([0xFFFD, 0xFFFD, 0xFFFE, 0xFFFF]):X}", "kind": "org"})
         stmts.append({"text": rp.choice(NEAR) + "L6", "kind": "ins"})
+    ro = r.child("symorg")
+    if good and cur_sec != "bss" and ro.chance(1, 6):
+        # an origin given by a label that is already defined (the grammar's `.ORG expression` takes a name): a table
+        # area is named first, code goes elsewhere, and the program comes back to the named place with `.ORG L7`
+        a7 = ro.choice([0x5000, 0x35000, 0x6F000]) + 0x10 * ro.below(8)
+        stmts.append({"text": f".ORG 0x{a7:X}", "kind": "org", "label": "L7"})
+        stmts.append({"text": f".ORG 0x{a7 + 0x400:X}", "kind": "org", "glue": True})   # nothing is placed at L7 before the return
+        stmts.append({"text": _fill(ro.choice(NOSYM), ro), "kind": "ins"})
+        stmts.append({"text": ".ORG L7", "kind": "org"})
+        stmts.append({"text": "NOP", "kind": "ins", "label": "L8"})
+        stmts.append({"text": ro.choice(["JP L8", "MV X, L8", "defl L8", "CALL L8"]), "kind": "ins"})
     # the grammar is `start: (line | NEWLINE)*` with `line: label? statement?`: nothing requires a line break between
     # two statements.  One program in four puts two or three instructions on one source line (the first ones without
     # operands, so that the split between them is unambiguous)
@@ -201,6 +212,8 @@ def _gen_program(r: Rng, good: bool, small_ok: bool = True) -> Dict[str, Any]:
     if rs.chance(1, 4):
         # never in front of a leading .ORG (the program may come back to origin 0 later)
         pos = rs.range(1 if stmts and stmts[0]["kind"] == "org" else 0, len(stmts))
+        if pos < len(stmts) and stmts[pos].get("glue"):
+            pos += 1
         group = [{"text": rs.choice(["NOP", "RET", "SC", "RC", "HALT", "TCL", "RETF"]), "kind": "ins"}]
         if rs.chance(1, 3):
             group.append({"text": rs.choice(["NOP", "SC", "RC", "WAIT"]), "kind": "ins", "same_line": True})
@@ -318,7 +331,13 @@ def _model(prog: Dict[str, Any], symbols: Dict[str, int], bases: Optional[Dict[s
                 labels[s["label"].upper()] = ptr[cur]
             continue
         if s["kind"] == "org":
-            ptr[cur] = int(s["text"].split()[1], 0)
+            arg = s["text"].split()[1]
+            try:
+                ptr[cur] = int(arg, 0)
+            except ValueError:
+                if arg.upper() not in labels:
+                    return {"error": f".ORG {arg}: label not defined before the directive"}
+                ptr[cur] = labels[arg.upper()]      # an origin named by an already defined label
             if "label" in s:
                 labels[s["label"].upper()] = ptr[cur]
             continue
@@ -328,7 +347,7 @@ def _model(prog: Dict[str, Any], symbols: Dict[str, int], bases: Optional[Dict[s
         text = s["text"]
         probe_text = text
         probe_text = probe_text.replace(SMALL_LABEL, "0x10")
-        for lb in ("L0", "L1", "L2", "L3", "L4", "L6", "ISR", "IMR", "KOL", "UCR", "LCC"):
+        for lb in ("L0", "L1", "L2", "L3", "L4", "L6", "L7", "L8", "ISR", "IMR", "KOL", "UCR", "LCC"):
             probe_text = probe_text.replace(lb, f"0x{addr & 0xF0000 | 0x10:X}")
         try:
             # a page-local transfer is encoded the same anywhere on its page: its reference encoding is taken in the
@@ -492,6 +511,8 @@ def check(scn: Dict[str, Any], hist: Dict[str, Any]) -> List[Dict[str, Any]]:
             probe("sections")
         if any(t.startswith(".ORG") for t in texts):
             probe("org")
+        if ".ORG L7" in texts:
+            probe("org_by_label")
         if any(t.lower() == "section bss" for t in texts):
             probe("bss")
         if any(st["kind"] in ("org", "section") and "label" in st for st in prog["stmts"]):
@@ -547,6 +568,8 @@ def shrink(scn: Dict[str, Any]):
         for j in range(len(st)):
             if len(st) <= 1:
                 break
+            if st[j]["kind"] == "org":
+                continue       # origins keep the statements apart: without one the program may overlap itself (not well formed)
             c = copy.deepcopy(scn)
             del c["calls"][i]["prog"]["stmts"][j]
             c["calls"][i]["src"] = _source(c["calls"][i]["prog"])
